@@ -126,7 +126,8 @@ def scenario(draw) -> Dict[str, Any]:
     if own and browsers[0]['qtype'] == 'QU':
         for _ in range(draw(st.integers(0, 3))):
             ops.insert(draw(st.integers(0, len(ops))), {'op': 'peer'})
-    return {'jitter': draw(st.integers(0, 10**6)), 'browsers': browsers, 'ops': ops, 'own': own, 'peer_start': peer_start}
+    return {'jitter': draw(st.integers(0, 10**6)), 'browsers': browsers, 'ops': ops, 'own': own, 'peer_start': peer_start,
+            'threaded': draw(st.sampled_from([False, False, False, True]))}
 
 
 def strategy(tier: str):
@@ -135,6 +136,17 @@ def strategy(tier: str):
 
 def known_signature(case: Any, v: Violation):
     return None
+
+
+class _Mute:
+    def add_service(self, zc: Any, type_: str, name: str) -> None:
+        pass
+
+    def remove_service(self, zc: Any, type_: str, name: str) -> None:
+        pass
+
+    def update_service(self, zc: Any, type_: str, name: str) -> None:
+        pass
 
 
 class Exec:
@@ -203,11 +215,21 @@ class Exec:
         if ps is not None and ps > 0:
             w.loop.call_at(w.clock.t + ps / 1000.0, peer_asks)
         self.browsers = []
+        self.thread_browsers: List[Any] = []
         for b in self.case['browsers']:
             qt = {None: None, 'QU': DNSQuestionType.QU, 'QM': DNSQuestionType.QM}[b['qtype']]
             lst = sim.RecListener(w)
             ts = [TYPES[ti] for ti in btypes(b)]
-            self.browsers.append(AsyncServiceBrowser(zc, ts if len(ts) > 1 else ts[0], listener=lst, delay=b['delay'] * 1000, question_type=qt))
+            if self.case.get('threaded'):
+                # the blocking API's browser: same scheduler, callbacks handed to its own thread (not looked at here)
+                from zeroconf import ServiceBrowser
+
+                br = ServiceBrowser(zc, ts if len(ts) > 1 else ts[0], listener=_Mute(), delay=b['delay'] * 1000, question_type=qt)
+                self.thread_browsers.append(br)
+                await asyncio.sleep(0)
+                self.browsers.append(br)
+            else:
+                self.browsers.append(AsyncServiceBrowser(zc, ts if len(ts) > 1 else ts[0], listener=lst, delay=b['delay'] * 1000, question_type=qt))
         msg_id = 1
         for op in self.case['ops']:
             now = w.clock.t
@@ -291,6 +313,10 @@ class Exec:
         if end > w.clock.t:
             await asyncio.sleep(end - w.clock.t)
         self.t_end = w.clock.t
+        for br in self.thread_browsers:       # end the callback threads (no thread outlives a case)
+            br.queue.put(None)
+        for br in self.thread_browsers:
+            br.join(5.0)
 
 
 def check(case: Dict[str, Any]) -> Dict[str, Any]:
@@ -417,5 +443,7 @@ def check(case: Dict[str, Any]) -> Dict[str, Any]:
         nontrivial = True
         classes.append('refresh-inside-attempt-window')
     classes.append('browsers-%d' % len(case['browsers']))
+    if case.get('threaded'):
+        classes.append('thread-based-ServiceBrowser')
     return {'nontrivial': nontrivial, 'classes': sorted(set(classes)), 'max': {'versions': len(ex.versions)},
             'sample': {'case': case}}
